@@ -489,6 +489,16 @@ func (s *Sim) Run() {
 			s.announce(true)
 		case "sleep":
 			s.waitFor(time.Duration(ev.A)*time.Millisecond, func(Obs) bool { return false })
+		case "flood":
+			// peer ev.A floods ev.B junk block announcements (asynchronously)
+			s.out(fmt.Sprintf("flood %d %d", ev.A, ev.B), "-")
+			go s.Peers[ev.A].Flood(ev.B)
+		case "drain":
+			// wait until the flooder's announcements have all been written to the client
+			for k := 0; k < 400 && s.Peers[ev.A].Backlog() > 0; k++ {
+				s.waitFor(50*time.Millisecond, func(Obs) bool { return false })
+			}
+			s.out(fmt.Sprintf("drain %d", ev.A), fmt.Sprintf("left %d", min1(int32(s.Peers[ev.A].Backlog()))))
 		case "drop":
 			// peer ev.A closes its connection (and, with NoRedial, does not come back)
 			s.Peers[ev.A].Drop()
